@@ -7,7 +7,7 @@ LOG=$WT/OUT/confirm.log; : > $LOG
 git stash -q 2>/dev/null; git checkout -q -- include 2>/dev/null; git stash drop -q 2>/dev/null
 git apply OUT/patch.diff || { echo "patch does not apply" | tee -a $LOG; exit 2; }
 echo "== suite with change" >> $LOG
-( cmake -G Ninja -B _build -S . -DCMAKE_BUILD_TYPE=RelWithDebInfo -DCMAKE_CXX_FLAGS=-Wno-error -DBUILD_TESTING=ON > /dev/null 2>&1; cmake --build _build -j4 2>&1 | tail -2; ./_build/test/boost_mqtt5-tests --report_level=short --log_level=error 2>&1 | tail -6 ) >> $LOG 2>&1
+( cmake -G Ninja -B _build -S . -DCMAKE_BUILD_TYPE=RelWithDebInfo -DCMAKE_CXX_FLAGS=-Wno-error -DBUILD_TESTING=ON > /dev/null 2>&1; cmake --build _build -j4 2>&1 | tail -2; /verif/tools/run_suite.sh ./_build/test/boost_mqtt5-tests ) >> $LOG 2>&1
 echo "== demo with change (must fail)" >> $LOG
 ( bash OUT/demo/run.sh > $WT/OUT/confirm_demo_with.log 2>&1; echo "rc=$?" ) >> $LOG
 git checkout -q -- include
